@@ -41,6 +41,7 @@ def _dispatcher_filter(repo, getter: str, default_name: str):
     return f
 
 def run(ctx: Ctx):
+    ctx.attempt(admission_consistency, ctx)
     guards.rule_enter_guards(ctx, "MEM", "D1")
     ctx.attempt(rules.rule_activity_writes, ctx, "D1")  # the guards above bind only if activities are installed through enter()
     pooling_helper(ctx)
@@ -109,6 +110,31 @@ def pooling_helper(ctx: Ctx):
                           construct="requests_exist:existential")
         else:
             raise AnalysisError(f"requests_exist_and_match_membership: accepting path returning {flow.dump(p.value)[:100]} is not a recognised universal over the requests")
+
+def admission_consistency(ctx: Ctx):
+    """The input side of fleet separation: a request enters the simulation only if it is consistent with the scenario — it names a fleet
+    iff fleets are configured. The Dispatcher's single unfiltered assignment for a fleet-less scenario relies on it (a fleet-tagged
+    request admitted there is matched with any vehicle). Truth table over (fleets configured, request has member ids)."""
+    URF = "nrel/hive/state/simulation_state/update/update_requests_from_file.py"
+    fn = ctx.repo.func(URF, "update_requests_from_iterator._update")
+    sim, row = fn.params[:2]
+    req = f"Request.from_row({row}, env, {sim}.road_network)[1]"
+
+    def label(p):
+        if p.kind != "return":
+            return p.kind
+        return "add" if any(e.name == "add_request_safe" and not e.deferred for e in p.events) else "skip"
+
+    terms = {"len(env.fleet_ids)": "f", f"len({req}.membership.memberships)": "m"}
+    rows = cmp.path_table(flow.paths(fn.node), terms, label, grid=range(0, 2))
+    bad = [r for r in rows if r[2] == "add" and ((r[0]["f"] > 0) != (r[0]["m"] > 0))]
+    some = any(r[2] == "add" for r in rows if (r[0]["f"] > 0) == (r[0]["m"] > 0))
+    ctx.check(not bad and some, "D4", "CMP.admission", "a request is admitted only if it names a fleet exactly when fleets are configured", fn,
+              why_ok="4 combinations of (fleets configured, request has member ids)",
+              why_bad=f"admitted for {[r[0] for r in bad[:3]]}: a request tagged with a fleet enters a scenario without fleets (the dispatcher then solves one unfiltered assignment and "
+                      f"pairs it with any vehicle), or an untagged one enters a scenario with fleets",
+              construct="update_requests_from_iterator:fleet-consistency")
+
 
 def membership_semantics(ctx: Ctx):
     """grant_access_to_membership(other): public or non-empty intersection; _id(id): public or id in set."""
